@@ -19,6 +19,7 @@ type evidence struct {
 	Paths, Decisions, Forks              int
 	Obligations, Discharged, Undecided   int
 	Violations, Unconfirmed, ReplaysRun  int
+	MonitorNotes                         int
 	Validated                            int
 	Queries                              int
 	SolverS                              float64
@@ -156,6 +157,7 @@ func (e *evidence) write(path string) error {
 		"known_findings_seen":      e.KnownSeen,
 		"counterexamples_replayed": e.ReplaysRun,
 		"counterexamples_unconfirmed": e.Unconfirmed,
+		"monitor_conditions_not_met_but_unconfirmed": e.MonitorNotes,
 		"violation_samples":        e.ViolationSamples,
 		"problems":                 e.Problems,
 		"exit":                     e.Exit,
